@@ -895,3 +895,86 @@ Proof.
   - rewrite D1. exact Ha.
   - intros x. rewrite D2 by auto. apply Hd.
 Qed.
+
+(* ---------- the part-2 oracle accepts every run of the model ---------- *)
+Definition des_rel (d : desired) (s : mstate) : Prop :=
+  forall k names, In (k, names) d -> ms_all s k = true /\ forall x, In x (tr_des (goc s k)) <-> In x names.
+
+Lemma find_kmap_render : forall (F : epkind -> vmap) l k, In k l ->
+  find_kmap k (map (fun k' => (k', F k')) l) = Some (F k).
+Proof.
+  induction l as [|a l IH]; intros k Hk; [inversion Hk|]. unfold find_kmap in *. cbn [map find fst].
+  destruct (epkind_eqb a k) eqn:E.
+  - apply epkind_eqb_eq in E. subst. reflexivity.
+  - apply IH. destruct Hk as [->|Hk]; auto. rewrite epkind_eqb_refl in E. discriminate.
+Qed.
+
+Lemma map_exact_ok : forall k names L, (forall x, In x L <-> In x names) ->
+  map_exact k names (map (fun n => (n, AGoto (CEp k n))) L) = true.
+Proof.
+  intros k names L H. unfold map_exact. apply andb_true_iff. split; apply forallb_forall.
+  - intros e He. apply in_map_iff in He. destruct He as [n [<- Hn]]. cbn [fst snd].
+    apply andb_true_iff. split; [apply mem_In, H, Hn|]. cbn. rewrite epkind_eqb_refl, name_eqb_refl. reflexivity.
+  - intros n Hn. apply existsb_exists. exists (n, AGoto (CEp k n)). split; [|apply name_eqb_refl].
+    apply in_map_iff. exists n. split; auto. apply H. exact Hn.
+Qed.
+
+Lemma dispatch_ok_ok : forall k names others elems, (forall x, In x elems <-> In x names) ->
+  dispatch_ok k names others (map (fun n => (n, AGoto (CEp k n))) (sort_names elems)) = true.
+Proof.
+  intros k names others elems H. unfold dispatch_ok. apply forallb_forall. intros i _.
+  rewrite (kernel_vmap_dispatch k elems names _ H), pkt_if_mk. apply result_eqb_refl.
+Qed.
+
+Lemma obs_ok_synced : forall d s kn runs loads, des_rel d s -> synced s kn ->
+  obs_ok d {| o_panicked := false; o_runs := runs; o_loads := loads; o_kernel := render_kernel kn |} = true.
+Proof.
+  intros d s kn runs loads HR HS. unfold obs_ok. cbn [o_panicked o_kernel].
+  destruct kn as [t|]; cbn [render_kernel].
+  - apply forallb_forall. intros [k names] Hp. cbn [fst snd].
+    destruct (HR k names Hp) as [Ha Hd]. destruct (HS k Ha) as [Hk He].
+    match goal with |- context [find_kmap ?a ?b] =>
+      replace (find_kmap a b) with (Some (map (fun n => (n, AGoto (CEp k n))) (sort_names (kelems (Some t) k))))
+        by (symmetry; apply (find_kmap_render (fun k' => map (fun n => (n, AGoto (CEp k' n))) (sort_names (kelems (Some t) k'))));
+            apply klisted_In; exact Hk) end.
+    assert (EQ : forall x, In x (kelems (Some t) k) <-> In x names) by (intros x; rewrite He; apply Hd).
+    apply andb_true_iff. split.
+    + apply map_exact_ok. intros x. rewrite sort_names_In. apply EQ.
+    + apply dispatch_ok_ok. exact EQ.
+  - destruct d as [|[k names] d]; [reflexivity|]. exfalso.
+    destruct (HR k names (or_introl eq_refl)) as [Ha _]. destruct (HS k Ha) as [Hk _]. discriminate.
+Qed.
+
+Lemma des_rel_set : forall d ts k names, des_rel d (t_m ts) ->
+  des_rel (set_desired d k names) (t_m (set_map ts k names)).
+Proof.
+  intros d ts k names HR k' names' Hin. unfold set_desired in Hin. destruct Hin as [Heq|Hin].
+  - inversion Heq; subst. apply set_map_desired.
+  - apply filter_In in Hin. destruct Hin as [Hin Hne]. cbn [fst] in Hne.
+    assert (k' <> k) by (intros ->; rewrite epkind_eqb_refl in Hne; discriminate).
+    destruct (HR k' names' Hin) as [Ha Hd]. cbn [set_map t_m].
+    destruct (add_or_replace_char (t_m ts) k (map_keys names)) as [C1 [_ [_ [_ C5]]]]. cbv zeta in *.
+    destruct (C5 k' H) as [G _]. rewrite C1, G. rewrite upd_other by auto. auto.
+Qed.
+
+Lemma des_rel_same : forall d a b, des_rel d b -> same_des_on a b -> des_rel d a.
+Proof.
+  intros d a b HR [S1 S2] k names Hin. destruct (HR k names Hin) as [Ha Hd].
+  split; [rewrite S1; auto|]. intros x. rewrite S2 by auto. apply Hd.
+Qed.
+
+Theorem maps_model_meets_spec_gen : forall ops ts kn d, reach ts kn -> des_rel d (t_m ts) ->
+  ok_history d ops (run_ops ts kn ops) = true.
+Proof.
+  induction ops as [|o ops IH]; intros ts kn d HR HD; [reflexivity|].
+  destruct o as [k names|sc]; cbn [run_ops ok_history].
+  - apply (IH (set_map ts k names) kn); [apply reach_set; auto|apply des_rel_set; auto].
+  - destruct (a_ok (apply_table ts kn sc)) eqn:Eok; cbn [negb o_panicked].
+    + destruct (maps_sync_exact ts kn sc HR Eok) as [S1 S2].
+      rewrite (obs_ok_synced d (t_m (a_ts (apply_table ts kn sc)))) by (auto; eapply des_rel_same; eauto).
+      cbn [andb]. apply IH; [apply reach_apply; auto|eapply des_rel_same; eauto].
+    + reflexivity.
+Qed.
+
+Theorem maps_model_meets_spec : forall ops, ok_history [] ops (run_ops t_init None ops) = true.
+Proof. intros. apply maps_model_meets_spec_gen; [apply reach_init|]. intros k names []. Qed.
